@@ -63,6 +63,9 @@ static const long long T0 = 1000000000LL;
 static int npending_conn;                     /* client connections waiting in the listener backlog */
 static int nclients, nconns, nlisten, nkids_live;
 static int next_pid = 50000;
+static int stubborn;                          /* coprocess helpers ignore SIGTERM and only exit when their socket sees EOF */
+static int pid_conn[4096];                    /* pid - 50000 -> vfd of the daemon's end of that helper's socketpair */
+static int last_pipe_fd = -1;
 static long rounds;
 static FILE *out;
 
@@ -190,12 +193,21 @@ int __wrap_fcntl(int fd, int cmd, ...)
 int __wrap_socketpair(int d, int t, int p, int sv[2])
 {
     sv[0] = vnew(K_PIPE); sv[1] = vnew(K_PIPEH); vf(sv[0])->id = vf(sv[1])->id = nconns++; vf(sv[0])->cs = CS_OK;
+    last_pipe_fd = sv[0];
     tr("OPEN %s pipe", kname(vf(sv[0])));
     return 0;
 }
-pid_t __wrap_fork(void) { nkids_live++; tr("FORK pid=%d live=%d", next_pid, nkids_live); return next_pid++; }
+pid_t __wrap_fork(void) { nkids_live++; tr("FORK pid=%d live=%d", next_pid, nkids_live); if (next_pid - 50000 < 4096) pid_conn[next_pid - 50000] = last_pipe_fd; return next_pid++; }
 int __wrap_kill(pid_t pid, int sig) { tr("KILL pid=%d sig=%d", pid, sig); return 0; }
-pid_t __wrap_waitpid(pid_t pid, int *st, int o) { nkids_live--; if (st) *st = SIGTERM; tr("WAIT pid=%d live=%d", pid, nkids_live); return pid; }
+pid_t __wrap_waitpid(pid_t pid, int *st, int o)
+{
+    if (stubborn && pid >= 50000 && pid - 50000 < 4096) {
+        int fd = pid_conn[pid - 50000];
+        /* the helper ignored SIGTERM; it exits only when it reads EOF, i.e. when the daemon has closed its end */
+        if (IS(fd) && vf(fd)->k == K_PIPE && !vf(fd)->peer_closed) { tr("HANG waitpid pid=%d (helper ignores SIGTERM, its socket is still open)", pid); fflush(out); _exit(98); }
+    }
+    nkids_live--; if (st) *st = SIGTERM; tr("WAIT pid=%d live=%d", pid, nkids_live); return pid;
+}
 
 ssize_t __wrap_read(int fd, void *buf, size_t n)
 {
@@ -359,6 +371,7 @@ int main(int argc, char **argv)
     static char obuf[1 << 16]; setvbuf(stdout, obuf, _IOFBF, sizeof obuf);
     if (getenv("PMSIM_MEM")) want_mem = 1;
     if (getenv("PMSIM_NOSTATE")) want_state = 0;
+    if (getenv("PMSIM_STUBBORN")) stubborn = 1;
     if (getenv("PMSIM_PLAN")) {            /* outcomes of the connect() calls made before the first poll (dev_initial_connect) */
         char *s = strdup(getenv("PMSIM_PLAN"));
         for (char *w = strtok(s, ","); w && cplan_n < 1024; w = strtok(NULL, ","))
